@@ -24,7 +24,7 @@ def run(seed=0, tier="quick", aimed=None):
             u, ub = r.normal(size=shape), r.normal(size=shape)
             chi = r.uniform(0, 1, size=shape); chi[(0,) * dim] = 0.0
             lam = float(10 ** r.uniform(-2, 6))
-            out = np.zeros(shape)
+            out = r.normal(size=shape)   # output arrays start dirty
             getattr(spne, f"gen_brinkmann_penalise_pyst_kernel_{dim}d")(real_t=np.float64)(
                 penalised_field=out, penalty_factor=lam, char_field=chi, penalty_field=ub, field=u)
             cases += 1
@@ -53,7 +53,7 @@ def run(seed=0, tier="quick", aimed=None):
             shape = (5, 13) if dim == 2 else (1, 5, 13)
             phi_a = phi.reshape(shape)
             for real_t, tol in ((np.float64, 1e-12), (np.float32, 1e-6)):
-                out = np.zeros(shape, dtype=real_t)
+                out = r.normal(size=shape).astype(real_t)   # output arrays start dirty
                 gen = getattr(spne, f"gen_char_func_from_level_set_via_sine_heaviside_pyst_kernel_{dim}d")
                 gen(blend_width=eps, real_t=real_t)(char_func_field=out, level_set_field=phi_a.astype(real_t))
                 Hv = out.ravel().astype(np.float64)
@@ -67,7 +67,7 @@ def run(seed=0, tier="quick", aimed=None):
                     what = "plateau"
                 elif np.any(np.diff(Hv) < -tol):
                     what = "monotone"
-                out2 = np.zeros(shape, dtype=real_t)
+                out2 = r.normal(size=shape).astype(real_t)
                 gen(blend_width=eps, real_t=real_t)(char_func_field=out2, level_set_field=(-phi_a).astype(real_t))
                 if what is None and np.any(np.abs(Hv + out2.ravel() - 1) > tol):
                     what = "H(phi)+H(-phi)=1"
